@@ -364,6 +364,21 @@ def rule_trivia_scan(ck, facts, R="C16.linebreak"):
         if not reads:
             continue
         di = DefIndex(f)
+        # the scan written with iterator adaptors: `any(is_linebreak)` looks at every element until it finds one; an
+        # adaptor that cuts the sequence short on another condition is the same defect as an early `break`
+        CUT = ("take_while", "skip_while", "map_while", "take", "skip", "find", "find_map", "position", "nth", "first", "last", "next", "step_by")
+        fam = facts.family(roles.LANG, f.root)
+        anys = [(g, t) for g in fam for _, t in g.calls() if (callee(t) or "").split("::")[-1].split("<")[0] == "any" and "iter" in (callee(t) or "").lower()]
+        cuts = [(g, t) for g in fam for _, t in g.calls() if (callee(t) or "").split("::")[-1].split("<")[0] in CUT and ("Iterator" in (callee(t) or "") or "iter::" in (callee(t) or "") or "slice" in (callee(t) or ""))]
+        if anys and not natural_loops(f):
+            n += len(anys)
+            key = "trivia-scan|%s" % f.short.split("::")[-1]
+            if cuts:
+                g, t = cuts[0]
+                ck.bad(R, key, "%s cuts the sequence of trivia tokens it scans with `%s` before asking whether one of them is a line break: a comment between the token and the line break hides the break — adding or moving a comment changes where a statement ends" % (f.short, (callee(t) or "").split("::")[-1]), g.where(t))
+            else:
+                ck.ok(R, key, {"method": f.short.split("::")[-1], "scan": "any over the whole list"})
+            continue
         for h, body in natural_loops(f):
             n += 1
             bad = None
